@@ -33,7 +33,7 @@
 use self::errors::*;
 use crate::DmntkError;
 use std::convert::TryFrom;
-use uriparse::{RelativeReference, URI};
+use uriparse::{RelativeReference, URIReference};
 
 /// Optional reference to an element.
 pub type OptHRef = Option<HRef>;
@@ -64,8 +64,11 @@ impl TryFrom<&str> for HRef {
       let s = relative_reference.to_string();
       return Ok(Self(if s.starts_with('#') { s.strip_prefix('#').unwrap().to_string() } else { s }));
     }
-    if let Ok(uri) = URI::try_from(value) {
-      return Ok(Self(uri.to_string()));
+    // `URI::try_from` panics for a scheme-less text that starts with a colon (e.g. ":a"), the reference is parsed first
+    if let Ok(uri_reference) = URIReference::try_from(value) {
+      if uri_reference.is_uri() {
+        return Ok(Self(uri_reference.to_string()));
+      }
     }
     Err(err_invalid_reference(value))
   }
